@@ -246,12 +246,52 @@ func c16r3(w *World, rr *RuleRun) {
 	for _, site := range w.CallsIn(comp, ac, false) {
 		rr.At(w, site, "announces are sent only after the traversal reported Stopped", PrecededBy(site, isStoppedRecv), "")
 		rr.At(w, site, "the traversal is told to stop before the announces", PrecededBy(site, isStop), "")
-		w.Require(rr, site, "announces are sent only when announce options were configured", func(alt *Alt) (bool, string) {
+		optsSet := func(alt *Alt) (bool, string) {
 			if alt.Has("n", true, func(x *Term) bool { return isFieldTerm(x, optsF) }) {
 				return true, "announcePeerOpts ≠ nil"
 			}
 			return false, "no announcePeerOpts ≠ nil fact"
-		})
+		}
+		// the guard may sit at the call, or at the top of announceClosest itself: in the latter case
+		// it must hold where the announces are handed out (the calls in announceClosest that receive
+		// a closure leading to announcePeer)
+		st := w.FE.StateBefore(site)
+		atCall := len(st) > 0
+		for _, alt := range st {
+			if ok, _ := optsSet(alt); !ok {
+				atCall = false
+			}
+		}
+		if atCall {
+			w.Require(rr, site, "announces are sent only when announce options were configured", optsSet)
+		} else {
+			apM := w.P.Func("(*Announce).announcePeer")
+			nIn := 0
+			eachInstr([]*ssa.Function{ac}, func(_ *ssa.Function, ins ssa.Instruction) {
+				c := callInstrCommon(ins)
+				if c == nil {
+					return
+				}
+				leads := false
+				for _, a := range c.Args {
+					if mc, ok := a.(*ssa.MakeClosure); ok {
+						fn := mc.Fn.(*ssa.Function)
+						for _, g := range append([]*ssa.Function{fn}, allAnon(fn)...) {
+							if len(w.CallsIn(g, apM, false)) > 0 {
+								leads = true
+							}
+						}
+					}
+				}
+				if leads {
+					nIn++
+					w.Require(rr, ins, "announces are sent only when announce options were configured", optsSet)
+				}
+			})
+			if nIn == 0 {
+				w.Require(rr, site, "announces are sent only when announce options were configured", optsSet)
+			}
+		}
 	}
 	// the set announced to is the FINAL closest set: every read of the traversal's Closest() in the
 	// announce flow happens after the receive from Stopped() - in the completion goroutine itself,
